@@ -71,6 +71,9 @@ type Personalisation struct {
 	CAProto []CAProto // empty + CAKeys present = legacy chip: MSE:Set KAT with 3DES
 	CAMKey  int       // index into CAKeys used for PACE-CAM
 	AA      *AAKey
+	// FirstServe: hostile chip only - content served for a file of the master file until it is selected a second
+	// time (a chip whose answers change between reads of the same file).
+	FirstServe map[uint16][]byte
 }
 
 // Behaviour knobs: legitimate variation between real chips.
@@ -81,6 +84,7 @@ type Behaviour struct {
 	LeCap            int  // READ BINARY with Le above this is answered 6700 (protected under SM); 0 = none
 	ExtLen           bool // extended-length APDUs supported; otherwise plain 6700, SM state untouched
 	EOFWarning       bool // 6282 instead of 9000 when fewer bytes than Le are available
+	NoOddINS         bool `json:",omitempty"` // READ BINARY with odd INS (B1) not supported: 6D00 (files beyond 32 KiB cannot be read in short chunks)
 	MFImplicit       bool // SELECT MF without data supported
 	MFExplicit       bool // SELECT MF with 3F00 supported
 	GlobalFid        bool // FIDs not found in the current DF are also searched in the MF
@@ -140,12 +144,16 @@ type Chip struct {
 	Ov  Overrides
 	// AAMutate, when set, lets a scenario turn the chip into an adversary on its own INTERNAL AUTHENTICATE answer.
 	AAMutate func(sig, rnd []byte) []byte
+	// AAFailFirst: number of initial INTERNAL AUTHENTICATE commands answered with AAFailSW instead of a signature.
+	AAFailFirst int
+	AAFailSW    uint16
 	// CANoSwitch: an impostor that cannot derive the new keys keeps answering under the old session.
 	CANoSwitch bool
 
 	// volatile
 	inLDS    bool
 	curEF    uint16
+	selCount map[string]int
 	curInLDS bool
 	hasEF    bool
 	access   bool
@@ -377,6 +385,10 @@ func (c *Chip) doSelect(cmd CAPDU, viaSM bool, ex *Exchange) ([]byte, uint16) {
 			return nil, 0x6982
 		}
 		c.curEF, c.curInLDS, c.hasEF = fid, inLDS, true
+		if c.selCount == nil {
+			c.selCount = map[string]int{}
+		}
+		c.selCount[fmt.Sprintf("%04X/%v", fid, inLDS)]++
 		ex.Action = fmt.Sprintf("select-ef %04X", fid)
 		return nil, 0x9000
 	}
@@ -410,6 +422,10 @@ func (c *Chip) doReadBinary(cmd CAPDU, viaSM bool, ex *Exchange) ([]byte, uint16
 	c.Facts.ReadBinaryCmds++
 	offset := 0
 	odd := cmd.INS == 0xB1
+	if odd && c.B.NoOddINS {
+		ex.Action = "read-binary-odd not-supported"
+		return nil, 0x6D00
+	}
 	if odd {
 		ts, err := ParseTLVs(cmd.Data)
 		if err != nil || len(ts) != 1 || ts[0].Tag != 0x54 || len(ts[0].Val) == 0 || len(ts[0].Val) > 3 {
@@ -473,6 +489,9 @@ func (c *Chip) doReadBinary(cmd CAPDU, viaSM bool, ex *Exchange) ([]byte, uint16
 		file = c.P.LDS[c.curEF]
 	} else {
 		file = c.P.MF[c.curEF]
+		if alt, ok := c.P.FirstServe[c.curEF]; ok && c.selCount[fmt.Sprintf("%04X/%v", c.curEF, false)] <= 1 {
+			file = alt
+		}
 	}
 	if offset >= len(file) {
 		ex.Action = "read-binary offset-beyond-eof"
